@@ -72,14 +72,19 @@ def _scripts(ctx, sessions):
     for s in cuts + sims:
         src = s["src"].split("-")[0] if s["src"].startswith("sim") else s["src"]
         by.setdefault((s["sess"], src), {})[json.dumps(s["segs"])] = s   # de-duplicated
-    caps = {"cut0": 1, "cut1": 30 if quick else 10 ** 9, "cut2": 70 if quick else 2500, "ones": 1, "ones-head": 1, "chunks": 3,
+    caps = {"cut0": 1, "cut1": 30 if quick else 10 ** 9, "cut2": 70 if quick else 2500, "ones": 1, "ones-head": 1, "chunks": 6, "frames": 3,
             "sim": 25 if quick else 400}
     out = []
+    nframes = {x["sess"]: len(x["frames"]) for x in sessions}
     gen_counts = {}
     for key in sorted(by, key=lambda k: (k[0], k[1] != "cut0", k[1])):   # the unsegmented run first
         pool = [by[key][k] for k in sorted(by[key])]
         gen_counts["%s/%s" % key] = len(pool)
         cap = caps.get(key[1], 50)
+        if quick and nframes.get(key[0], 0) > 60:   # very many frames: every event is dear in trace validation
+            cap = {"cut1": 6, "cut2": 0, "sim": 3}.get(key[1], cap)
+            if key[1] == "chunks":
+                pool = [x for x in pool if x["segs"][0] >= 64]
         if quick and key[1] in ("ones", "ones-head"):
             total = next(x["total"] for x in sessions if x["sess"] == key[0])
             if total > 450:
